@@ -893,3 +893,171 @@ func sharedBinding(clo *ssa.MakeClosure, fv *ssa.FreeVar) bool {
 	}
 	return false
 }
+
+// ---- yield protocol (C16) ------------------------------------------------------------------------------------
+//
+// A range-over-func iterator must stop calling yield once yield has returned false: the Go runtime answers a further
+// call with the panic "range function continued iteration after function for loop body returned false". The rule
+// is built in (no clause): every function of the repository that has a parameter of a func(...) bool type and no
+// results of its own (the shape of an iter.Seq / iter.Seq2 body) is scanned. For each call of that parameter the
+// result must decide a branch, and no call of the parameter may be reachable from the "false" side of that branch
+// (a break that only leaves an inner loop is the classic slip). A result that is dropped is a violation too.
+func (w *World) yieldProtocolObligations(prop string) []*Obligation {
+	if prop != "C16" {
+		return nil
+	}
+	var out []*Obligation
+	var names []string
+	for n := range w.P.Funcs {
+		names = append(names, n)
+	}
+	sort.Strings(names)
+	scanned := 0
+	for _, n := range names {
+		fn := w.P.Funcs[n]
+		if !w.P.InRepo(FuncPkgPath(fn)) || len(fn.Blocks) == 0 || fn.Signature.Results().Len() != 0 {
+			continue
+		}
+		var yield *ssa.Parameter
+		for _, p := range fn.Params {
+			if sig, ok := p.Type().Underlying().(*types.Signature); ok && sig.Results().Len() == 1 {
+				if b, isB := sig.Results().At(0).Type().Underlying().(*types.Basic); isB && b.Kind() == types.Bool {
+					yield = p
+				}
+			}
+		}
+		if yield == nil {
+			continue
+		}
+		// the functions in which the parameter can be called: the iterator itself and, when it ranges over another
+		// iterator, the synthetic loop bodies that capture the parameter (through the cell the compiler puts it in)
+		type site struct {
+			fn    *ssa.Function
+			isYld func(v ssa.Value) bool
+			body  bool // a synthetic loop body: "return true" continues the enclosing iteration
+		}
+		sites := []site{{fn, func(v ssa.Value) bool { return v == ssa.Value(yield) }, false}}
+		var cell *ssa.Alloc
+		if refs := yield.Referrers(); refs != nil {
+			for _, r := range *refs {
+				if st, ok := r.(*ssa.Store); ok && st.Val == ssa.Value(yield) {
+					if al, isAl := st.Addr.(*ssa.Alloc); isAl {
+						cell = al
+					}
+				}
+			}
+		}
+		if cell != nil {
+			sites[0].isYld = func(v ssa.Value) bool {
+				if v == ssa.Value(yield) {
+					return true
+				}
+				ld, ok := v.(*ssa.UnOp)
+				return ok && ld.Op == token.MUL && ld.X == ssa.Value(cell)
+			}
+			var addInner func(outer *ssa.Function, holder ssa.Value, depth int)
+			addInner = func(outer *ssa.Function, holder ssa.Value, depth int) {
+				if depth > 3 {
+					return
+				}
+				for _, ob := range outer.Blocks {
+					for _, oi := range ob.Instrs {
+						mc, ok := oi.(*ssa.MakeClosure)
+						if !ok {
+							continue
+						}
+						inner, _ := mc.Fn.(*ssa.Function)
+						if inner == nil || inner.Synthetic == "" {
+							continue
+						}
+						for i, bnd := range mc.Bindings {
+							if bnd == holder && i < len(inner.FreeVars) {
+								fv := inner.FreeVars[i]
+								sites = append(sites, site{inner, func(v ssa.Value) bool {
+									ld, ok := v.(*ssa.UnOp)
+									return ok && ld.Op == token.MUL && ld.X == ssa.Value(fv)
+								}, true})
+								addInner(inner, fv, depth+1)
+							}
+						}
+					}
+				}
+			}
+			addInner(fn, cell, 0)
+		}
+		cnt := 0
+		for _, sc := range sites {
+			isYieldCall := func(ins ssa.Instruction) bool {
+				c, ok := ins.(*ssa.Call)
+				return ok && sc.isYld(c.Call.Value)
+			}
+			continues := func(b *ssa.BasicBlock) string {
+				for _, x := range b.Instrs {
+					if isYieldCall(x) {
+						return "yield can be called again (" + w.P.posStr(x.Pos()) + ") after it has returned false: a break that leaves only the inner loop, or a missing return"
+					}
+					if ret, ok := x.(*ssa.Return); ok && sc.body && len(ret.Results) == 1 {
+						if c, isC := ret.Results[0].(*ssa.Const); isC && c.Value != nil && c.Value.String() == "true" {
+							return "after yield has returned false the loop body goes on with the NEXT element of the enclosing iteration (" + w.P.posStr(ret.Pos()) + "): a break that leaves only the inner loop"
+						}
+					}
+				}
+				return ""
+			}
+			for _, b := range sc.fn.Blocks {
+				for _, ins := range b.Instrs {
+					if !isYieldCall(ins) {
+						continue
+					}
+					scanned++
+					call := ins.(*ssa.Call)
+					cnt++
+					bad := ""
+					var iff *ssa.If
+					used := false
+					if refs := call.Referrers(); refs != nil {
+						for _, r := range *refs {
+							switch x := r.(type) {
+							case *ssa.DebugRef:
+							case *ssa.If:
+								iff, used = x, true
+							default:
+								used = true
+							}
+						}
+					}
+					switch {
+					case !used:
+						bad = "the result of yield is dropped: the iterator goes on after the loop body asked it to stop"
+					case iff != nil && iff.Cond == ssa.Value(call):
+						// Succs[1] is taken when yield returned false
+						seen := map[*ssa.BasicBlock]bool{}
+						stack := []*ssa.BasicBlock{iff.Block().Succs[1]}
+						for len(stack) > 0 && bad == "" {
+							cur := stack[len(stack)-1]
+							stack = stack[:len(stack)-1]
+							if seen[cur] {
+								continue
+							}
+							seen[cur] = true
+							bad = continues(cur)
+							stack = append(stack, cur.Succs...)
+						}
+					}
+					if bad != "" {
+						out = append(out, &Obligation{Name: fmt.Sprintf("%s/yield-protocol#%d", n, cnt), Func: n, Kind: "yield-protocol", Tags: []string{prop},
+							Status: "failed", SrcPos: w.P.posStr(call.Pos()), Text: "an iterator stops calling yield once yield has returned false",
+							Detail: map[string]string{"why": bad}})
+					}
+				}
+			}
+		}
+	}
+	st, why := "discharged", fmt.Sprintf("%d yield calls in the iterators of the repository scanned", scanned)
+	if scanned == 0 {
+		st, why = "failed", "vacuous: no iterator found in the repository"
+	}
+	out = append(out, &Obligation{Name: "yield-protocol/rule", Func: "yield-protocol", Kind: "yield-protocol", Tags: []string{prop}, Status: st,
+		Text: "iterators stop calling yield once it has returned false", Detail: map[string]string{"why": why}, Solver: "ssa-scan"})
+	return out
+}
